@@ -150,6 +150,22 @@ def type_instances(F, type_sub, fn_res):
     return out
 
 
-ESCAPE_FNS = [r"^std::mem::forget::<", r"^std::mem::ManuallyDrop::<.*>::new$", r"^std::ptr::read::<", r"^std::ptr::read_volatile::<",
-              r"^std::ptr::read_unaligned::<", r"^std::mem::transmute_copy::<", r"^<.* as std::clone::Clone>::clone$",
-              r"^std::mem::MaybeUninit::<.*>::assume_init_read$", r"^std::ptr::write::<", r"^std::ptr::drop_in_place::<.*> - shim\(None\)"]
+ESCAPE_FNS = [r"^core::mem::forget::<", r"^core::mem::manually_drop::ManuallyDrop::<.*>::new$", r"^core::ptr::read::<",
+              r"^core::ptr::read_volatile::<", r"^core::ptr::read_unaligned::<", r"^core::mem::transmute_copy::<",
+              r"^core::mem::maybe_uninit::MaybeUninit::<.*>::assume_init_read$", r"^core::ptr::write::<"]
+
+
+def escapes(F, type_pred):
+    """instances of forget/ManuallyDrop::new/ptr::read/... whose *type argument* satisfies type_pred, plus Clone::clone
+    instances (impl or shim) on such a type"""
+    out = []
+    for i in F.inst:
+        n = i.name
+        for rx in ESCAPE_FNS:
+            if re.search(rx, n) and i.args and any(type_pred(a) for a in i.args):
+                out.append(i); break
+        else:
+            m = re.match(r"^<(.*) as core::clone::Clone>::clone( - shim.*)?$", n)
+            if m and type_pred(m.group(1)):
+                out.append(i)
+    return out
